@@ -2,27 +2,53 @@
 package vsync
 
 import (
+	"strconv"
 	realsync "sync"
 
 	vrt "github.com/ChrisTrenkamp/xsel/verifrt"
 )
 
-type WaitGroup struct{ n int }
+type WaitGroup struct {
+	n  int
+	id int
+}
+
+func (w *WaitGroup) reg() string {
+	if w.id == 0 {
+		w.id = vrt.Register(func() uint64 { return uint64(int64(w.n)) })
+	}
+	return "#" + strconv.Itoa(w.id)
+}
 
 func (w *WaitGroup) Add(d int) {
-	vrt.S.Point("wg.Add")
+	vrt.P("wg.Add " + w.reg() + " " + strconv.Itoa(d))
 	w.n += d
 	if w.n < 0 {
 		panic("sync: negative WaitGroup counter")
 	}
 }
 func (w *WaitGroup) Done() { w.Add(-1) }
-func (w *WaitGroup) Wait() { vrt.S.Block("wg.Wait", func() bool { return w.n == 0 }) }
+func (w *WaitGroup) Wait() { vrt.B("wg.Wait "+w.reg(), func() bool { return w.n == 0 }) }
 
-type Mutex struct{ locked bool }
+type Mutex struct {
+	locked bool
+	id     int
+}
+
+func (m *Mutex) reg() string {
+	if m.id == 0 {
+		m.id = vrt.Register(func() uint64 {
+			if m.locked {
+				return 1
+			}
+			return 0
+		})
+	}
+	return "#" + strconv.Itoa(m.id)
+}
 
 func (m *Mutex) Lock() {
-	vrt.S.Block("mu.Lock", func() bool { return !m.locked })
+	vrt.B("mu.Lock "+m.reg(), func() bool { return !m.locked })
 	m.locked = true
 }
 func (m *Mutex) Unlock() {
@@ -30,32 +56,48 @@ func (m *Mutex) Unlock() {
 		panic("sync: unlock of unlocked mutex")
 	}
 	m.locked = false
-	vrt.S.Point("mu.Unlock")
+	vrt.P("mu.Unlock " + m.reg())
 }
 func (m *Mutex) TryLock() bool {
-	vrt.S.Point("mu.TryLock")
+	vrt.P("mu.TryLock " + m.reg())
 	if m.locked {
+		vrt.Note("trylock=false")
 		return false
 	}
 	m.locked = true
+	vrt.Note("trylock=true")
 	return true
 }
 
 type RWMutex struct {
-	w bool
-	r int
+	w  bool
+	r  int
+	id int
+}
+
+func (m *RWMutex) reg() string {
+	if m.id == 0 {
+		m.id = vrt.Register(func() uint64 {
+			k := uint64(m.r) << 1
+			if m.w {
+				k |= 1
+			}
+			return k
+		})
+	}
+	return "#" + strconv.Itoa(m.id)
 }
 
 func (m *RWMutex) Lock() {
-	vrt.S.Block("rw.Lock", func() bool { return !m.w && m.r == 0 })
+	vrt.B("rw.Lock "+m.reg(), func() bool { return !m.w && m.r == 0 })
 	m.w = true
 }
-func (m *RWMutex) Unlock() { m.w = false; vrt.S.Point("rw.Unlock") }
+func (m *RWMutex) Unlock() { m.w = false; vrt.P("rw.Unlock " + m.reg()) }
 func (m *RWMutex) RLock() {
-	vrt.S.Block("rw.RLock", func() bool { return !m.w })
+	vrt.B("rw.RLock "+m.reg(), func() bool { return !m.w })
 	m.r++
 }
-func (m *RWMutex) RUnlock() { m.r--; vrt.S.Point("rw.RUnlock") }
+func (m *RWMutex) RUnlock() { m.r--; vrt.P("rw.RUnlock " + m.reg()) }
 
 // types the scheduler does not model are passed through (their use is reported)
 type Once = realsync.Once
